@@ -248,3 +248,87 @@ package graphalg
 //@   ensures [nodup]     nodup(result)
 //@   ensures [range]     allin(result, g.NumNodes()) && fresh(result)
 //@   assigns nothing
+
+// ---------------------------------------------------------------------
+// Dom (C19): the child lists invert idom. All child lists are carved out of
+// one backing array (cspace), which first holds the number of children of
+// every node: list p occupies the window [psum(p), psum(p+1)) of it.
+//@ spec cntPar(idom []int, k int, p int) int = k <= 0 ? 0 : cntPar(idom, k-1, p) + (idom[k-1] == p ? 1 : 0)
+//@ spec psum(idom []int, k int, i int) int = i <= 0 ? 0 : psum(idom, k, i-1) + cntPar(idom, k, i-1)
+
+// Adding node k raises exactly the count of its parent, so the prefix sums
+// never exceed the number of nodes counted.
+//@ lemma cnt_nonneg(idom []int, k int, p int) induction k
+//@   model int
+//@   requires 0 <= k && k <= len(idom)
+//@   ensures cntPar(idom, k, p) >= 0
+//@ lemma cnt_mono(idom []int, k int, K int, p int) induction K
+//@   model int
+//@   requires 0 <= k && k <= K && K <= len(idom)
+//@   ensures cntPar(idom, k, p) <= cntPar(idom, K, p)
+//@ lemma cnt_strict(idom []int, k int, K int, p int) induction K
+//@   model int
+//@   requires 0 <= k && k < K && K <= len(idom) && idom[k] == p
+//@   ensures cntPar(idom, k, p) < cntPar(idom, K, p)
+//@ lemma psum_step(idom []int, k int, i int) induction i
+//@   model int
+//@   requires 1 <= k && k <= len(idom) && 0 <= i
+//@   ensures psum(idom, k, i) == psum(idom, k-1, i) + ((0 <= idom[k-1] && idom[k-1] < i) ? 1 : 0)
+//@ lemma psum_zero(idom []int, i int) induction i
+//@   model int
+//@   requires 0 <= i
+//@   ensures psum(idom, 0, i) == 0
+//@ lemma psum_bound(idom []int, k int, i int) induction k
+//@   use psum_step, psum_zero
+//@   model int
+//@   requires 0 <= k && k <= len(idom) && 0 <= i
+//@   ensures psum(idom, k, i) <= k && psum(idom, k, i) >= 0
+//@ lemma psum_mono(idom []int, k int, i int, j int) induction j
+//@   use cnt_nonneg
+//@   model int
+//@   requires 0 <= k && k <= len(idom) && 0 <= i && i <= j
+//@   ensures psum(idom, k, i) <= psum(idom, k, j)
+
+//@ spec childWin(idom []int, cs []int, ch [][]int, p int) bool =
+//@     region(ch[p]) == region(cs) && offset(ch[p]) == offset(cs) + psum(idom, len(idom), p) && cap(ch[p]) == cntPar(idom, len(idom), p) && offset(ch[p]) + cap(ch[p]) == offset(cs) + psum(idom, len(idom), p+1)
+//@ spec childOK(idom []int, ch [][]int, p int, upto int) bool =
+//@     len(ch[p]) == cntPar(idom, upto, p) &&
+//@     (forall e in 0..len(ch[p]) @[ch[p][e]] :: 0 <= ch[p][e] && ch[p][e] < upto && idom[ch[p][e]] == p) &&
+//@     (forall e in 1..len(ch[p]) @[ch[p][e]] :: ch[p][e-1] < ch[p][e])
+
+//@ func Dom
+//@   use cnt_nonneg, cnt_mono, cnt_strict, psum_bound, psum_mono
+//@   model int
+//@   requires forall x in 0..len(idom) :: -1 <= idom[x] && idom[x] < len(idom)
+//@   ensures [tree]     result != nil && region(result.idom) == region(idom) && offset(result.idom) == offset(idom) && len(result.idom) == len(idom) && len(result.children) == len(idom)
+//@   ensures [children] forall p in 0..len(idom) :: childOK(idom, result.children, p, len(idom))
+//@   loop 1 (parent) modifies cspace[*]
+//@   loop 1 (parent) invariant len(cspace) == len(idom) && cap(cspace) == len(idom) && fresh(cspace) && offset(cspace) == 0 && len(children) == len(idom) && fresh(children) && (forall p in 0..len(idom) :: cspace[p] == cntPar(idom, _k, p))
+//@   loop 2 (i) modifies children[*]
+//@   loop 2 (i) preserves cspace[*]
+//@   loop 2 (i) invariant len(cspace) == len(idom) && cap(cspace) == len(idom) && fresh(cspace) && offset(cspace) == 0 && len(children) == len(idom) && fresh(children) && (forall p in 0..len(idom) :: cspace[p] == cntPar(idom, len(idom), p)) && used == psum(idom, len(idom), i) && psum(idom, len(idom), i+1) <= len(idom) && (forall p in 0..i :: childWin(idom, cspace, children, p) && len(children[p]) == 0)
+//@   loop 3 (node) forget
+//@   loop 3 (node) modifies children[*], cspace[*]
+//@   loop 3 (node) invariant len(cspace) == len(idom) && fresh(cspace) && offset(cspace) == 0 && len(children) == len(idom) && fresh(children) && (forall p in 0..len(idom) :: childWin(idom, cspace, children, p) && childOK(idom, children, p, node))
+//@   assigns nothing
+
+//@ func DomTree.IDom
+//@   model int
+//@   requires t != nil && 0 <= n && n < len(t.idom)
+//@   ensures [def] result == t.idom[n]
+//@   assigns nothing
+//@ func DomTree.NumNodes
+//@   model int
+//@   requires t != nil
+//@   ensures [def] result == len(t.idom)
+//@   assigns nothing
+//@ func DomTree.In
+//@   model int
+//@   requires t != nil && 0 <= n && n < len(t.idom)
+//@   ensures [def] len(result) == 1 && result[0] == t.idom[n]
+//@   assigns nothing
+//@ func DomTree.Out
+//@   model int
+//@   requires t != nil && 0 <= n && n < len(t.children)
+//@   ensures [def] len(result) == len(t.children[n]) && (forall e in 0..len(result) :: result[e] == t.children[n][e])
+//@   assigns nothing
